@@ -2552,7 +2552,15 @@ pub fn check_c16(ix: &Ix<'_>, v: &mut Vec<Violation>) {
         let session_at = ix.sessions.iter().find(|s| s.1 == conn).map(|s| s.0);
         let proto_busy = ix.gates.iter().any(|g| g.conn == conn && g.kind == GateKind::Proto && g.enter < settle && g.exit.as_ref().is_none_or(|x| x.0 > settle) && g.dropped.is_none_or(|d| d > settle));
         let never_sends = out.plan.senders.is_empty();
-        if !ended_before_settle && !proto_busy && session_at.is_some() {
+        // reading may be paused on purpose: the receive limits (C12) are reached by the handlers still running
+        let running_pubs: Vec<&G> = ix.gates.iter().filter(|g| g.conn == conn && g.kind == GateKind::Publish && g.enter < settle && g.exit.as_ref().is_none_or(|x| x.0 > settle) && g.dropped.is_none_or(|d| d > settle)).collect();
+        let running_bytes: usize = running_pubs
+            .iter()
+            .map(|g| if let GateDesc::Publish(p) = &g.desc { ix.sent.iter().find(|s| matches!(&s.pkt, Some(Pkt::Publish(q)) if q.topic == p.topic)).map_or(0, |s| s.len) } else { 0 })
+            .sum();
+        let cfg = &out.plan.cfg;
+        let paused_by_limits = (cfg.max_receive_size != 0 && running_bytes + 8 >= cfg.max_receive_size) || (cfg.max_receive != 0 && running_pubs.len() >= cfg.max_receive as usize);
+        if !ended_before_settle && !proto_busy && !paused_by_limits && session_at.is_some() {
             for s in ix.sent.iter().filter(|s| s.conn == conn && !s.corrupt && s.delivered.is_some_and(|d| d < settle)) {
                 let _ = accepted_at;
                 let d = s.delivered.unwrap_or(0);
